@@ -17,7 +17,7 @@ theorem lag_create {σ : St} (h : LagInv σ) (id : Nat) (cs : Int) : LagInv (cre
     · have heq : create σ id cs = { σ with used := id :: σ.used, log := .rejected id cs :: σ.log } := by
         unfold create; simp [hg, h0]
       rw [heq]
-      refine ⟨⟨h.base.noErr, h.base.normT, h.base.normL, h.base.normP, h.base.sorted, h.base.remNonneg,
+      refine ⟨⟨h.base.noErr, h.base.cfg, h.base.normT, h.base.normL, h.base.normP, h.base.sorted, h.base.remNonneg,
         base_fired_cons (by intros; simp) h.base.fired⟩, ?_⟩
       refine (pcInv_of (σ := { σ with used := id :: σ.used, log := .rejected id cs :: σ.log }) hpc).mpr ?_
       simp only [PcInvAt]
@@ -32,7 +32,7 @@ theorem lag_create {σ : St} (h : LagInv σ) (id : Nat) (cs : Int) : LagInv (cre
           pc := if σ.running then .b1 id cs σ.now (Time.ofCs cs) else .a1 id cs σ.now (Time.ofCs cs) } := by
         unfold create; simp [hg, h0]
       rw [heq]
-      refine ⟨⟨h.base.noErr, h.base.normT, h.base.normL, h.base.normP, h.base.sorted, h.base.remNonneg,
+      refine ⟨⟨h.base.noErr, h.base.cfg, h.base.normT, h.base.normL, h.base.normP, h.base.sorted, h.base.remNonneg,
         base_fired_cons (by intros; simp) h.base.fired⟩, ?_⟩
       rcases Bool.eq_false_or_eq_true σ.running with hr | hr
       rotate_left
@@ -59,14 +59,14 @@ theorem lag_destroy {σ : St} (h : LagInv σ) (id : Nat) : LagInv (destroy σ id
     have hp := (pcInv_of hpc).mp h.pcInv
     simp only [PcInvAt] at hp
     split
-    · refine ⟨⟨h.base.noErr, h.base.normT, h.base.normL, h.base.normP, h.base.sorted, h.base.remNonneg,
+    · refine ⟨⟨h.base.noErr, h.base.cfg, h.base.normT, h.base.normL, h.base.normP, h.base.sorted, h.base.remNonneg,
         base_fired_cons (by intros; simp) h.base.fired⟩, ?_⟩
       refine (pcInv_of (σ := { σ with live := σ.live.erase id, log := .destroyed id σ.now :: σ.log }) hpc).mpr ?_
       simp only [PcInvAt]
       rcases hp.2 with ha | hs
       · exact ⟨hp.1, Or.inl ha⟩
       · exact ⟨hp.1, Or.inr hs⟩
-    · refine ⟨⟨h.base.noErr, h.base.normT, h.base.normL, h.base.normP, h.base.sorted, h.base.remNonneg,
+    · refine ⟨⟨h.base.noErr, h.base.cfg, h.base.normT, h.base.normL, h.base.normP, h.base.sorted, h.base.remNonneg,
         h.base.fired⟩, ?_⟩
       refine (pcInv_of (pc := .d1 id) rfl).mpr ?_
       simp only [PcInvAt]
@@ -74,198 +74,80 @@ theorem lag_destroy {σ : St} (h : LagInv σ) (id : Nat) : LagInv (destroy σ id
       · exact ⟨hp.1, Or.inl ha⟩
       · exact ⟨hp.1, Or.inr hs⟩
 
-/-- the handler at the instant the timer expires, outside critical sections -/
-theorem lag_handler (σ : St) (h : LagInv σ) (hc : σ.inCrit = false) (hrem : 0 < σ.remaining) :
+/-- the state at the instant the timer expires -/
+theorem lag_expire {σ : St} (h : LagInv σ) (hrem : 0 < σ.remaining) :
+    LagInv { σ with now := σ.now + σ.remaining, remaining := 0, dirty := σ.dirty || σ.inCrit } :=
+  ⟨h.base.advance (Int.le_refl 0) rfl rfl rfl rfl rfl rfl,
+   h.pcInv.advance σ.remaining (by omega) (Or.inl ⟨Int.le_refl _, by show (0 : Int) = σ.remaining - σ.remaining; omega⟩)
+     rfl rfl rfl rfl rfl rfl rfl rfl⟩
+
+/-- the signal handler at the instant the timer expires -/
+theorem lag_handler (σ : St) (h : LagInv σ) (hrem : 0 < σ.remaining) :
     LagInv (handler false { σ with now := σ.now + σ.remaining, remaining := 0,
                                    dirty := σ.dirty || σ.inCrit }) := by
-  obtain ⟨hpcs, hst⟩ := pcInv_notCrit h.pcInv hc
-  have harmed : Armed σ := by
-    rcases hst with ha | hs
-    · exact ha
-    · have := hs.2.1; omega
-  obtain ⟨a1, a2, a3, ⟨e, r, hp, hhead⟩, a5⟩ := harmed
-  have hnT' : (σ.tsf.add σ.ltr).Norm := Time.add_norm h.base.normT h.base.normL
-  have hT' : (σ.tsf.add σ.ltr).toUs = σ.tsf.toUs + σ.ltr.toUs := Time.add_toUs h.base.normT h.base.normL
-  have hnormP : AllNorm (e :: r) := hp ▸ h.base.normP
-  have hrestSub : (takeDue false (σ.tsf.add σ.ltr) r).2.Sublist σ.pending := by
-    rw [hp]; exact (takeDue_sublist_snd _ _ _).trans (List.sublist_cons_self e r)
-  -- every element that fires now is due: its recorded deadline is ≤ the new `time_so_far`
-  have hdue : ∀ x ∈ e :: (takeDue false (σ.tsf.add σ.ltr) r).1,
-      x ∈ σ.pending ∧ x.deadline.toUs ≤ σ.tsf.toUs + σ.ltr.toUs := by
-    intro x hx
-    rcases List.mem_cons.mp hx with hh | hh
-    · subst hh; exact ⟨by rw [hp]; simp, by omega⟩
-    · have hxr : x ∈ r := (takeDue_sublist_fst _ _ _).subset hh
-      have h1 := (Time.le_false_iff (hnormP x (List.mem_cons_of_mem _ hxr)) hnT').mp (takeDue_due _ _ _ x hh)
-      exact ⟨by rw [hp]; exact List.mem_cons_of_mem _ hxr, by omega⟩
-  have hfired : ∀ id t b cs, Event.fired id t b cs ∈
-      (firedEvents (σ.now + σ.remaining) (e :: (takeDue false (σ.tsf.add σ.ltr) r).1)).reverse ++ σ.log →
-      b + cs * 10000 ≤ t := by
-    intro id t b cs hh
-    rcases mem_fired_block.mp hh with ⟨x, hx, _, e2, e3, e4⟩ | hh
-    · obtain ⟨hxm, hxd⟩ := hdue x hx
-      have := a5 x hxm
-      subst e3 e4
-      omega
-    · exact h.base.fired id t b cs hh
-  have pcSame : ∀ (σ' : St), σ'.pc = σ.pc → σ'.inCrit = false → Stable σ' → PcInv σ' := by
-    intro σ' hpc' hc' hs'
-    unfold PcInv; rw [hpc']
-    rcases hpcs with hi | ⟨j, hj⟩
-    · rw [hi]; exact ⟨hc', hs'⟩
-    · rw [hj]; exact ⟨hc', hs'⟩
-  unfold handler
-  simp only [hc, Bool.false_eq_true, if_false, hp]
-  split
-  · rename_i hrest
-    refine ⟨⟨h.base.noErr, hnT', h.base.normL, ?_, ?_, Int.le_refl 0, hfired⟩, ?_⟩
-    · show AllNorm (takeDue false (σ.tsf.add σ.ltr) r).2
-      rw [hrest]; intro x hx; simp at hx
-    · show Sorted (takeDue false (σ.tsf.add σ.ltr) r).2
-      rw [hrest]; simp [Sorted]
-    · exact pcSame _ rfl rfl (Or.inr ⟨rfl, rfl, hrest⟩)
-  · rename_i n rest' hrest
-    have hnrest : n ∈ (takeDue false (σ.tsf.add σ.ltr) r).2 := by rw [hrest]; simp
-    have hnmem : n ∈ σ.pending := hrestSub.subset hnrest
-    have hnn : n.deadline.Norm := h.base.normP n hnmem
-    have hgt : σ.tsf.toUs + σ.ltr.toUs < n.deadline.toUs := by
-      have h1 := takeDue_rest_head false (σ.tsf.add σ.ltr) r n rest' hrest
-      have h2 := Time.le_false_iff hnn hnT'
-      cases hle : Time.le false n.deadline (σ.tsf.add σ.ltr)
-      · have : ¬ (n.deadline.toUs ≤ (σ.tsf.add σ.ltr).toUs) := fun hh => by
-          have := h2.mpr hh; rw [hle] at this; exact absurd this (by simp)
-        omega
-      · rw [hle] at h1; exact absurd h1 (by simp)
-    have hsubN : (n.deadline.sub (σ.tsf.add σ.ltr)).Norm := Time.sub_norm hnn hnT'
-    have hsubU : (n.deadline.sub (σ.tsf.add σ.ltr)).toUs = n.deadline.toUs - (σ.tsf.toUs + σ.ltr.toUs) := by
-      rw [Time.sub_toUs_ge hnn hnT' (by omega), hT']
-    have hnz : (n.deadline.sub (σ.tsf.add σ.ltr)).isZero = false := by
-      cases hz : (n.deadline.sub (σ.tsf.add σ.ltr)).isZero
-      · rfl
-      · have := (Time.isZero_iff hsubN).mp hz; omega
-    have hok := Time.timevalOK_of_norm hsubN
-    unfold setTimerH
-    simp only [hnz, Bool.false_eq_true, if_false, hok, if_true]
-    refine ⟨⟨h.base.noErr, hnT', hsubN, ?_, ?_, ?_, ?_⟩, ?_⟩
-    · show AllNorm (takeDue false (σ.tsf.add σ.ltr) r).2
-      intro x hx; exact h.base.normP x (hrestSub.subset hx)
-    · show Sorted (takeDue false (σ.tsf.add σ.ltr) r).2
-      exact List.Pairwise.sublist hrestSub h.base.sorted
-    · show 0 ≤ (n.deadline.sub (σ.tsf.add σ.ltr)).toUs
-      omega
-    · exact base_fired_cons (by intros; simp) hfired
-    · refine pcSame _ rfl rfl (Or.inl ⟨a1, ?_, Int.le_refl _, ⟨n, rest', hrest, ?_⟩, ?_⟩)
-      · show 0 < (n.deadline.sub (σ.tsf.add σ.ltr)).toUs
-        omega
-      · show n.deadline.toUs = (σ.tsf.add σ.ltr).toUs + (n.deadline.sub (σ.tsf.add σ.ltr)).toUs
-        omega
-      · intro x hx
-        have hx' : x ∈ (takeDue false (σ.tsf.add σ.ltr) r).2 := hx
-        have := a5 x (hrestSub.subset hx')
-        show x.gBirth + x.gCs * 10000 + ((σ.tsf.add σ.ltr).toUs + (n.deadline.sub (σ.tsf.add σ.ltr)).toUs
-          - (n.deadline.sub (σ.tsf.add σ.ltr)).toUs) ≤ x.deadline.toUs + (σ.now + σ.remaining)
-        omega
+  have hτ := lag_expire h hrem
+  rcases Bool.eq_false_or_eq_true σ.inCrit with hc | hc
+  · -- inside a critical section: only `timeout_deferred` is set
+    have heq : handler false { σ with now := σ.now + σ.remaining, remaining := 0, dirty := σ.dirty || σ.inCrit } =
+        { σ with now := σ.now + σ.remaining, remaining := 0, dirty := σ.dirty || σ.inCrit,
+                 deferredFlag := true, log := Event.deferred (σ.now + σ.remaining) :: σ.log } := by
+      unfold handler; simp [hc, h.base.cfg]
+    rw [heq]
+    refine ⟨⟨hτ.base.noErr, hτ.base.cfg, hτ.base.normT, hτ.base.normL, hτ.base.normP, hτ.base.sorted,
+      hτ.base.remNonneg, base_fired_cons (by intros; simp) hτ.base.fired⟩, ?_⟩
+    exact hτ.pcInv.advance 0 (Int.le_refl 0) (Or.inr ⟨rfl, rfl⟩) (by simp) rfl rfl rfl rfl rfl rfl rfl
+  · -- outside: the handler body runs
+    obtain ⟨hst, hkeep⟩ := pcInv_async h.pcInv hc hrem
+    have harmed : Armed σ := by
+      rcases hst with ha | hs
+      · exact ha
+      · have := hs.2.1; omega
+    have haτ : Armed { σ with now := σ.now + σ.remaining, remaining := 0, dirty := σ.dirty || σ.inCrit } :=
+      harmed.advance σ.remaining (by omega)
+        (Or.inl ⟨Int.le_refl _, by show (0 : Int) = σ.remaining - σ.remaining; omega⟩) rfl rfl rfl rfl rfl
+    obtain ⟨b1, b2, b3⟩ := lag_body _ hτ.base haτ rfl none
+    have heq : handler false { σ with now := σ.now + σ.remaining, remaining := 0, dirty := σ.dirty || σ.inCrit } =
+        handlerBody false none { σ with now := σ.now + σ.remaining, remaining := 0, dirty := σ.dirty || σ.inCrit } := by
+      unfold handler
+      rw [if_neg (by show ¬ (σ.inCrit = true); simp [hc])]
+    rw [heq]
+    rcases b3 with ⟨q1, q2⟩ | ⟨f, hf, _⟩
+    · exact ⟨b1, hkeep _ q1 (b2.trans hc) q2⟩
+    · exact absurd hf (by simp)
 
-theorem handler_deferred_log (b : Bool) (σ : St) (hc : σ.inCrit = true) :
-    ∃ t, Event.deferred t ∈ (handler b σ).log := by
-  unfold handler
-  simp only [hc, if_true]
-  unfold setTimerH
-  split
-  · exact ⟨σ.now, by simp⟩
-  · split <;> exact ⟨σ.now, by simp⟩
+/-- the invariant of all runs of the repaired code -/
+def NInv (σ : St) : Prop := LagInv σ
 
-/-- the invariant of all runs, as long as no signal has been deferred -/
-def NInv (σ : St) : Prop := (∃ t, Event.deferred t ∈ σ.log) ∨ LagInv σ
-
-theorem lag_tick {σ : St} (h : LagInv σ) (dt : Int) :
-    (∃ t, Event.deferred t ∈ (tick false σ dt).log) ∨ LagInv (tick false σ dt) := by
+theorem lag_tick {σ : St} (h : LagInv σ) (dt : Int) : LagInv (tick false σ dt) := by
   unfold tick
   split
-  · exact Or.inr h
+  · exact h
   · rename_i hdt
     split
     · rename_i hrem
-      right
       have hz : σ.remaining = 0 := by have := h.base.remNonneg; omega
-      exact ⟨h.base.advance h.base.remNonneg rfl rfl rfl rfl rfl,
+      exact ⟨h.base.advance h.base.remNonneg rfl rfl rfl rfl rfl rfl,
         h.pcInv.advance dt (by omega) (Or.inr ⟨hz, rfl⟩) rfl rfl rfl rfl rfl rfl rfl rfl⟩
     · rename_i hrem
       split
       · rename_i hlt
-        right
-        exact ⟨h.base.advance (by show 0 ≤ σ.remaining - dt; omega) rfl rfl rfl rfl rfl,
-          h.pcInv.advance dt (by omega) (Or.inl ⟨hlt, rfl⟩) rfl rfl rfl rfl rfl rfl rfl rfl⟩
-      · rcases Bool.eq_false_or_eq_true σ.inCrit with hc | hc
-        · left; exact handler_deferred_log false _ hc
-        · right; exact lag_handler σ h hc (by omega)
+        exact ⟨h.base.advance (by show 0 ≤ σ.remaining - dt; omega) rfl rfl rfl rfl rfl rfl,
+          h.pcInv.advance dt (by omega) (Or.inl ⟨by omega, rfl⟩) rfl rfl rfl rfl rfl rfl rfl rfl⟩
+      · exact lag_handler σ h (by omega)
 
-theorem exec_log_suffix (b : Bool) (σ : St) (s : Step) : ∃ es, (exec b σ s).log = es ++ σ.log := by
+theorem ninv_exec {σ : St} (h : LagInv σ) (s : Step) : LagInv (exec false σ s) := by
   cases s with
-  | create id cs =>
-    show ∃ es, (create σ id cs).log = es ++ σ.log
-    unfold create
-    split
-    · exact ⟨[], rfl⟩
-    · split
-      · exact ⟨[_], rfl⟩
-      · exact ⟨[_], rfl⟩
-  | destroy id =>
-    show ∃ es, (destroy σ id).log = es ++ σ.log
-    unfold destroy
-    split
-    · exact ⟨[], rfl⟩
-    · split
-      · exact ⟨[_], rfl⟩
-      · exact ⟨[], rfl⟩
-  | step => exact step_log_suffix b σ
-  | tick d =>
-    show ∃ es, (tick b σ d).log = es ++ σ.log
-    have hset : ∀ (τ : St) (t : Time) (base : List Event), (∃ es, τ.log = es ++ base) →
-        ∃ es, (setTimerH τ t).log = es ++ base := by
-      intro τ t base ⟨es, hes⟩; unfold setTimerH
-      split
-      · exact ⟨Event.internalError :: es, by simp [hes]⟩
-      · split
-        · exact ⟨Event.hset t.toUs :: es, by simp [hes]⟩
-        · exact ⟨Event.internalError :: es, by simp [hes]⟩
-    have hh : ∀ (τ : St), ∃ es, (handler b τ).log = es ++ τ.log := by
-      intro τ
-      unfold handler
-      split
-      · exact hset _ _ _ ⟨[_], rfl⟩
-      · simp only
-        split
-        · exact ⟨[], rfl⟩
-        · split
-          · exact ⟨_, rfl⟩
-          · exact hset _ _ _ ⟨_, rfl⟩
-    unfold tick
-    split
-    · exact ⟨[], rfl⟩
-    · split
-      · exact ⟨[], rfl⟩
-      · split
-        · exact ⟨[], rfl⟩
-        · exact hh _
+  | create id cs => exact lag_create h id cs
+  | destroy id => exact lag_destroy h id
+  | step => exact lag_step h
+  | tick d => exact lag_tick h d
 
-theorem ninv_exec {σ : St} (h : NInv σ) (s : Step) : NInv (exec false σ s) := by
-  rcases h with ⟨t, ht⟩ | hl
-  · left
-    obtain ⟨es, hes⟩ := exec_log_suffix false σ s
-    exact ⟨t, by rw [hes]; exact List.mem_append_right _ ht⟩
-  · cases s with
-    | create id cs => exact Or.inr (lag_create hl id cs)
-    | destroy id => exact Or.inr (lag_destroy hl id)
-    | step => exact Or.inr (lag_step hl)
-    | tick d => exact lag_tick hl d
-
-theorem ninv_run (sched : List Step) : NInv (run false sched) := by
-  have : ∀ (l : List Step) (σ : St), NInv σ → NInv (runFrom false σ l) := by
+theorem ninv_run (sched : List Step) : LagInv (run false sched) := by
+  have : ∀ (l : List Step) (σ : St), LagInv σ → LagInv (runFrom false σ l) := by
     intro l
     induction l with
     | nil => intro σ h; exact h
     | cons s l ih => intro σ h; exact ih _ (ninv_exec h s)
-  exact this sched {} (Or.inr lag_init)
+  exact this sched {} lag_init
 
 end PPLV.Watchdog
